@@ -144,6 +144,12 @@ Proof.
   - intros E. destruct (H E) as [-> [HE2 X]]. split; [reflexivity|]. split; [eapply heap_ext_trans; eauto|auto].
 Qed.
 
+Lemma post_weaken sh ext w r r' w' :
+  (r' = Ok tt -> r = Ok tt) -> post sh ext w r w' -> post sh ext w r' w'.
+Proof.
+  intros Hr [newl [rest [L [P H]]]]. exists newl, rest. split; [exact L|]. split; [exact P|]. intros E. apply H. apply Hr. exact E.
+Qed.
+
 Lemma vote_spec c b isAck task ext w r w' :
   vote c b isAck task w = (r, w') -> Inv b (w_heap w) ext ->
   (isAck = false -> Forall (fun s : status => snd s <> None) (statuses b)) ->
@@ -209,7 +215,7 @@ Proof.
   (* the work on the sub-batch *)
   set (mid := match fst s0 with
               | FAck | FFilter => if is_last c ti || negb (has_active sb) then vote c sb true 0 else next sb
-              | FNack => vote c sb false ti
+              | FNack => nack_vote c sb ti
               | FRetry =>
                   sb' <-- lift (batch_ack sb 0 (Some (length (records sb)))) ;;;
                   nx <-- lift (retry_next (N.to_nat (c_maxattempts c)) (N.to_nat (c_maxstall c)) retry (length (records sb'))) ;;;
@@ -220,7 +226,10 @@ Proof.
     - destruct (is_last c ti || negb (has_active sb)).
       + eapply vote_spec; eauto. discriminate.
       + eapply Hnext; eauto.
-    - eapply vote_spec; eauto. intros _.
+    - unfold nack_vote in Hm. apply fatalize_inv in Hm. destruct Hm as [r0 [Hm Hr0]].
+      eapply post_weaken with (r := r0).
+      { destruct Hr0 as [->|[e [e' [_ ->]]]]; [auto|discriminate]. }
+      eapply vote_spec; eauto. intros _.
       specialize (Hnackall _ Hs0 Ef). destruct Isb as [[_ _ Nsb] _ _ _].
       unfold nack_has_err in Nsb. rewrite Forall_forall in *. intros s Hs. apply Nsb; auto.
     - apply bind_inv_M in Hm. destruct Hm as [[sb' [w2 [H2 Hm]]]|[H2 Hr]].
@@ -386,7 +395,7 @@ Lemma tloop_step c ti b retry next again n idx sb :
     (s0 <-- lift (nth_chk (statuses sb) 0 SStatusIdx) ;;;
      (match fst s0 with
       | FAck | FFilter => if is_last c ti || negb (has_active sb) then vote c sb true 0 else next sb
-      | FNack => vote c sb false ti
+      | FNack => nack_vote c sb ti
       | FRetry =>
           sb' <-- lift (batch_ack sb 0 (Some (length (records sb)))) ;;;
           nx <-- lift (retry_next (N.to_nat (c_maxattempts c)) (N.to_nat (c_maxstall c)) retry (length (records sb'))) ;;;
